@@ -382,3 +382,36 @@ V('c05-strict-unknown-child-allowed', 'C05', 'hl7apy/core.py',
 V('c05-fix-group-order', 'C05', 'hl7apy/core.py',
   "        if Validator.is_strict(self.validation_level):\n            children = self.children.get_ordered_children()\n        else:\n            children = self.children.get_children()",
   "        children = self.children.get_children()", expect='fixed:C05-L|core.Group._get_children')
+
+# ---------------------------------------------------------------- C04
+V('c04-validator-repairs-datatype', 'C04', 'hl7apy/validation.py',
+  "            ref_datatype = ref[2]\n            if el.datatype != ref_datatype:",
+  "            ref_datatype = ref[2]\n            if el.datatype is None:\n                el.datatype = ref_datatype\n            if el.datatype != ref_datatype:",
+  rule='C04-E')
+V('c04-validator-adds-missing', 'C04', 'hl7apy/validation.py',
+  "                if children_num < min_repetitions:\n                    errs.append(ValidationError(\"Missing required child {}.{}\".format(el.name, child_name)))\n                elif",
+  "                if children_num < min_repetitions:\n                    el.children.create_element(child_name)\n                    errs.append(ValidationError(\"Missing required child {}.{}\".format(el.name, child_name)))\n                elif",
+  rule='C04-E')
+V('c04-encoder-caches-index', 'C04', 'hl7apy/core.py',
+  "        children = [self.indexes.get(k, None) for k in ordered_keys]\n        return children",
+  "        children = [self.indexes.setdefault(k, []) or None for k in ordered_keys]\n        return children", rule='C04-E')
+V('c04-is-valid-ignores-errors', 'C04', 'hl7apy/validation.py', "                is_valid=not errors,", "                is_valid=not warnings,",
+  rule='C04-V')
+V('c04-raise-last', 'C04', 'hl7apy/validation.py', "            raise errors[0]", "            raise errors[-1]", rule='C04-V')
+V('c04-report-skips-warnings', 'C04', 'hl7apy/validation.py',
+  "                    for e in errors:\n                        f.write(\"Error: {}\\n\".format(e))\n                    for w in warnings:\n                        f.write(\"Warning: {}\\n\".format(w))",
+  "                    for e in errors:\n                        f.write(\"Error: {}\\n\".format(e))", rule='C04-V')
+V('c04-errors-rebound', 'C04', 'hl7apy/validation.py', "        _is_valid(element, reference, errors, warnings)\n",
+  "        _is_valid(element, reference, errors, warnings)\n        errors = errors[:1]\n", rule='C04-V')
+V('c04-repetitions-not-called', 'C04', 'hl7apy/validation.py',
+  "                        _check_repetitions(el, children, cardinality, child_name, errs)\n", "                        pass\n",
+  rule='C04-R')
+V('c04-datatype-check-dead', 'C04', 'hl7apy/validation.py', "                _check_datatype(el, ref, errs)\n", "", rule='C04-R')
+V('c04-warning-as-error-class', 'C04', 'hl7apy/validation.py',
+  "                errs.append(ValidationError(\"Datatype {} is not correct", "                errs.append(ValidationWarning(\"Datatype {} is not correct",
+  rule='C04-R')
+V('c04-unknown-not-reported', 'C04', 'hl7apy/validation.py',
+  "            if el.is_unknown():\n                errs.append(ValidationError(\"Unknown element found: {}.{}\".format(el.parent, el)))\n                return",
+  "            if el.is_unknown():\n                return", rule='C04-R')
+V('c04-table-negative-min', 'C04', 'hl7apy/v2_4/segments.py', "('ACC_1', FIELDS['ACC_1'], (0, 1), 'FIE')",
+  "('ACC_1', FIELDS['ACC_1'], (2, 1), 'FIE')", rule='C04-C')
